@@ -333,6 +333,20 @@ class Parser:
 
     # -- patterns
     def pattern(self):
+        """a pattern, possibly `p | q | …` (alternatives must not bind anything)"""
+        before = self.next_id
+        p = self.pattern1()
+        if not self.at("|"):
+            return p
+        alts = [p]
+        while self.at("|"):
+            self.i += 1
+            alts.append(self.pattern1())
+        if self.next_id != before:
+            raise Unsupported("or-pattern that binds")
+        return f"(.alt [{', '.join(alts)}])"
+
+    def pattern1(self):
         while self.at("&") or self.at_id("mut") or self.at_id("ref") or self.at("&&"):
             self.i += 1
         k, v = self.peek()
@@ -392,6 +406,10 @@ class Parser:
         if self.at(".."):
             raise Unsupported("range expression outside an index")
         e = self.binary(0)
+        if self.at("..") and not self.no_struct:
+            self.i += 1
+            hi = self.binary(0)
+            return f"(.range {e} {hi})"
         return e
 
     def binary(self, level):
@@ -545,11 +563,11 @@ class Parser:
             self.i += 1
             if self.at(")"):
                 self.i += 1; return ".unit"
-            es = [self.expr()]
+            es = [self.nested(self.expr)]
             tup = False
             while self.at(","):
                 tup = True; self.i += 1
-                if not self.at(")"): es.append(self.expr())
+                if not self.at(")"): es.append(self.nested(self.expr))
             self.eat(")")
             if not tup: return es[0]
             return f"(.ctor 0 [{', '.join(es)}])"
@@ -571,7 +589,6 @@ class Parser:
                 self.scopes.append({})
                 if self.at("|"): self.i += 1
                 p = self.pattern()
-                if self.at("|"): raise Unsupported("or-pattern")
                 g = "none"
                 if self.at_id("if"):
                     self.i += 1; g = f"(some {self.expr()})"
@@ -718,7 +735,7 @@ class Parser:
         else:
             self.eat("|")
             while not self.at("|"):
-                ps.append(self.pattern())
+                ps.append(self.pattern1())
                 if self.at(":"):
                     self.i += 1; self.skip_type({",", "|"})
                 if self.at(","): self.i += 1
